@@ -22,6 +22,7 @@ type modWrite struct {
 	Pos  token.Pos
 	In   *ssa.Function
 	Sync bool // performed while a lock is held / inside sync.Once
+	Elem bool // the written object is reached through a pointer loaded from an element of the root slice
 }
 
 type modEngine struct {
@@ -64,8 +65,23 @@ func memRoot(v ssa.Value) (base ssa.Value, deref bool) {
 		case *ssa.Index:
 			v = x.X
 		case *ssa.Extract:
+			if lk, ok := x.Tuple.(*ssa.Lookup); ok && x.Index == 0 {
+				if _, isMap := lk.X.Type().Underlying().(*types.Map); isMap {
+					// v, ok := m[k]: the element comes out of the map's memory
+					deref = true
+					v = lk.X
+					continue
+				}
+			}
 			v = x.Tuple
 			return v, deref
+		case *ssa.Lookup:
+			if _, isMap := x.X.Type().Underlying().(*types.Map); !isMap {
+				return v, deref
+			}
+			// m[k]: the element comes out of the map's memory
+			deref = true
+			v = x.X
 		case *ssa.Phi:
 			// follow the first non-nil edge that is not itself
 			var nxt ssa.Value
@@ -137,7 +153,22 @@ func sharedRoot(f *ssa.Function, addr ssa.Value) string {
 		}
 	case *ssa.FreeVar:
 		return "freevar:" + b.Name()
+	case *ssa.MakeSlice:
+		if deref {
+			return parkedRoot(f, b)
+		}
 	case *ssa.Call:
+		// a circl function that may hand back one of its own pointer arguments (an accumulator that adopts its
+		// first term): the result is that argument
+		if cal := b.Call.StaticCallee(); cal != nil && cal.Blocks != nil && isCirclFunc(cal) && pointerLike(b.Type()) {
+			for _, j := range mayReturnParam(cal) {
+				if j < len(b.Call.Args) {
+					if r := sharedRoot(f, b.Call.Args[j]); r != "" {
+						return r
+					}
+				}
+			}
+		}
 		// the result of a circl function that may hand back a pointer it keeps in a field of one of its
 		// arguments (a cache accessor): memory reached through it belongs to that argument
 		if cal := b.Call.StaticCallee(); cal != nil && cal.Blocks != nil && isCirclFunc(cal) && pointerLike(b.Type()) {
@@ -154,6 +185,168 @@ func sharedRoot(f *ssa.Function, addr ssa.Value) string {
 }
 
 var retFieldMemo = map[*ssa.Function][]int{}
+
+var parkDepth int
+
+// parkedRoot: a pointer loaded from an element of a slice the function made itself belongs to whoever the
+// pointers stored into that slice belong to: `acc[j] = key.m[label]; ...; acc[j].add(acc[j], t)` writes the
+// caller's object. Flow-insensitive over the stores into the slice.
+func parkedRoot(f *ssa.Function, container ssa.Value) string {
+	if parkDepth > 3 {
+		return ""
+	}
+	parkDepth++
+	defer func() { parkDepth-- }()
+	for _, b := range f.Blocks {
+		for _, in := range b.Instrs {
+			if call, ok := in.(*ssa.Call); ok {
+				// a helper that parks one of its pointer arguments in the slice it is handed
+				if cal := call.Call.StaticCallee(); cal != nil && cal.Blocks != nil && isCirclFunc(cal) && !call.Call.IsInvoke() {
+					for _, pk := range parksParam(cal) {
+						if pk[0] < len(call.Call.Args) && pk[1] < len(call.Call.Args) {
+							if base, deref := memRoot(call.Call.Args[pk[0]]); !deref && base == container {
+								if r := sharedRoot(f, call.Call.Args[pk[1]]); r != "" {
+									return r
+								}
+							}
+						}
+					}
+				}
+				continue
+			}
+			st, ok := in.(*ssa.Store)
+			if !ok || !pointerLike(st.Val.Type()) {
+				continue
+			}
+			if _, isIdx := st.Addr.(*ssa.IndexAddr); !isIdx {
+				continue
+			}
+			base, deref := memRoot(st.Addr)
+			if deref || base != container {
+				continue
+			}
+			if _, isPtr := st.Val.Type().Underlying().(*types.Pointer); !isPtr {
+				continue
+			}
+			if r := sharedRoot(f, st.Val); r != "" {
+				return r
+			}
+		}
+	}
+	return ""
+}
+
+var retParamMemo = map[*ssa.Function][]int{}
+
+// elemLoadOfParam: the address or pointer v is reached through a pointer loaded from an element of a slice
+// parameter (`p[j].x`, `*p[j]`).
+func elemLoadOfParam(v ssa.Value) bool {
+	for i := 0; i < 64; i++ {
+		switch x := v.(type) {
+		case *ssa.FieldAddr:
+			v = x.X
+		case *ssa.IndexAddr:
+			v = x.X
+		case *ssa.Slice:
+			v = x.X
+		case *ssa.UnOp:
+			if x.Op != token.MUL {
+				return false
+			}
+			if ia, ok := x.X.(*ssa.IndexAddr); ok {
+				if _, isPar := ia.X.(*ssa.Parameter); isPar {
+					if _, isPtr := x.Type().Underlying().(*types.Pointer); isPtr {
+						return true
+					}
+				}
+			}
+			v = x.X
+		default:
+			return false
+		}
+	}
+	return false
+}
+
+var parksMemo = map[*ssa.Function][][2]int{}
+
+// parksParam: pairs (i, k) such that cal stores its pointer parameter k into an element of its slice parameter i.
+func parksParam(cal *ssa.Function) [][2]int {
+	if r, ok := parksMemo[cal]; ok {
+		return r
+	}
+	var out [][2]int
+	idx := func(v ssa.Value) int {
+		for i, q := range cal.Params {
+			if ssa.Value(q) == v {
+				return i
+			}
+		}
+		return -1
+	}
+	for _, b := range cal.Blocks {
+		for _, in := range b.Instrs {
+			st, ok := in.(*ssa.Store)
+			if !ok {
+				continue
+			}
+			ia, ok := st.Addr.(*ssa.IndexAddr)
+			if !ok {
+				continue
+			}
+			if i, k := idx(ia.X), idx(st.Val); i >= 0 && k >= 0 {
+				if _, isPtr := st.Val.Type().Underlying().(*types.Pointer); isPtr {
+					out = append(out, [2]int{i, k})
+				}
+			}
+		}
+	}
+	parksMemo[cal] = out
+	return out
+}
+
+// mayReturnParam: indices of the pointer parameters of cal that some return statement returns as they are.
+func mayReturnParam(cal *ssa.Function) []int {
+	if r, ok := retParamMemo[cal]; ok {
+		return r
+	}
+	retParamMemo[cal] = nil
+	set := map[int]bool{}
+	var visit func(v ssa.Value, depth int)
+	visit = func(v ssa.Value, depth int) {
+		if depth > 6 {
+			return
+		}
+		switch x := v.(type) {
+		case *ssa.Phi:
+			for _, e := range x.Edges {
+				visit(e, depth+1)
+			}
+		case *ssa.Parameter:
+			for i, q := range cal.Params {
+				if q == x {
+					set[i] = true
+				}
+			}
+		}
+	}
+	for _, b := range cal.Blocks {
+		if ret, ok := b.Instrs[len(b.Instrs)-1].(*ssa.Return); ok {
+			for _, r := range ret.Results {
+				if _, isPtr := r.Type().Underlying().(*types.Pointer); isPtr {
+					visit(r, 0)
+				}
+			}
+		}
+	}
+	var out []int
+	for i := range set {
+		out = append(out, i)
+	}
+	sort.Ints(out)
+	retParamMemo[cal] = out
+	return out
+}
 
 // mayReturnParamField: indices of the parameters of cal such that some return statement returns a
 // pointer loaded from a field of (memory reached through) that parameter.
@@ -304,13 +497,31 @@ func (e *modEngine) of(f *ssa.Function) []modWrite {
 	p := e.p
 	var out []modWrite
 	seen := map[string]bool{}
+	elem := false
 	add := func(root, via string, pos token.Pos, in *ssa.Function, sync bool) {
 		k := root + "|" + via
 		if root == "" || seen[k] {
 			return
 		}
 		seen[k] = true
-		out = append(out, modWrite{Root: root, Via: via, Pos: pos, In: in, Sync: sync})
+		out = append(out, modWrite{Root: root, Via: via, Pos: pos, In: in, Sync: sync, Elem: elem})
+	}
+	// rootOf: sharedRoot, and for a callee write that goes through an element of a slice the caller made
+	// itself, the owner of the pointers parked in that slice
+	rootOf := func(arg ssa.Value, w modWrite) string {
+		elem = false
+		if r := sharedRoot(f, arg); r != "" {
+			elem = w.Elem || elemLoadOfParam(arg)
+			return r
+		}
+		if w.Elem {
+			if base, deref := memRoot(arg); !deref {
+				if ms, ok := base.(*ssa.MakeSlice); ok {
+					return parkedRoot(f, ms)
+				}
+			}
+		}
+		return ""
 	}
 	// is the function synchronised as a whole? (coarse: it takes a lock or runs under sync.Once)
 	syncd := false
@@ -328,7 +539,9 @@ func (e *modEngine) of(f *ssa.Function) []modWrite {
 		for _, in := range b.Instrs {
 			switch x := in.(type) {
 			case *ssa.Store:
+				elem = elemLoadOfParam(x.Addr)
 				add(sharedRoot(f, x.Addr), descAddr(x.Addr), x.Pos(), f, syncd)
+				elem = false
 			case *ssa.MapUpdate:
 				add(sharedRoot(f, x.Map), descVal(x.Map)+"[…]", x.Pos(), f, syncd)
 			case ssa.CallInstruction:
@@ -347,7 +560,8 @@ func (e *modEngine) of(f *ssa.Function) []modWrite {
 						}
 						var i int
 						if _, err := fmt.Sscanf(w.Root, "param#%d", &i); err == nil && i < len(args) {
-							add(sharedRoot(f, args[i]), descVal(args[i])+" → "+fname(cal)+": "+w.Via, x.Pos(), w.In, w.Sync || syncd)
+							add(rootOf(args[i], w), descVal(args[i])+" → "+fname(cal)+": "+w.Via, x.Pos(), w.In, w.Sync || syncd)
+							elem = false
 						}
 					}
 					// closures passed as arguments are analysed where they are defined (free variables)
